@@ -27,7 +27,7 @@ func coreAlphabet() []lx.Op {
 		{Kind: "post", Name: "back-dated", Postings: []lx.P{p("world", "a", "USD", "7")}, TSOff: &back},
 		{Kind: "post", Name: "future", Postings: []lx.P{p("a", "c", "USD", "7")}, TSOff: &fut},
 		{Kind: "script", Name: "send-all", Script: "send [USD *] (\n source = @a\n destination = @c\n)"},
-		{Kind: "script", Name: "allot", Script: "send [USD 10] (\n source = @a\n destination = {\n 1/3 to @c\n remaining to @a:b\n }\n)\nset_account_meta(@c, \"tag\", \"x\")"},
+		{Kind: "script", Name: "allot", Script: "send [USD 10] (\n source = @a\n destination = {\n 1/3 to @c\n remaining to @a:b\n }\n)\nset_account_meta(@c, \"tag\", \"x\")", ScriptAccMeta: map[string]map[string]string{"c": {"tag": "x"}}},
 		{Kind: "revert", Name: "revert1", TxID: 1},
 		{Kind: "revert", Name: "revert2-force-eff", TxID: 2, Force: true, AtEff: true},
 		{Kind: "accmeta", Name: "accmeta-a", Address: "a", Meta: map[string]string{"k": "v"}},
